@@ -525,6 +525,145 @@ def _slice_get(it, st, args, fn, bb, frame, t, depth, site):
 
 COMBINATORS['core::slice::<impl [T]>::get'] = _slice_get
 
+def _fork_bool(it, st, b, fn, bb, frame):
+    """generator of (state, bool): the decision `if b {..} else {..}` would take"""
+    sb = strip(b)
+    if sb[0] == 'c' and isinstance(sb[1], bool):
+        yield st, sb[1]
+        return
+    targets = [(0, None), (1, None)]
+    known = st.memo.get(b)
+    if known in (0, 1):
+        yield st, bool(known)
+        return
+    s2 = st.copy()
+    s2.memo[b] = 1
+    s2.decisions.append(Decision(b, 1, fn, bb, frame, targets))
+    yield s2, True
+    st.memo[b] = 0
+    st.decisions.append(Decision(b, 0, fn, bb, frame, targets))
+    yield st, False
+
+
+def _then_some(it, st, args, fn, bb, frame, t, depth, site):
+    # b.then_some(v) = if b { Some(v) } else { None }
+    if len(args) != 2:
+        return
+    for st2, tv in _fork_bool(it, st, args[0], fn, bb, frame):
+        yield st2, (_mk(OPT, 'Some', args[1]) if tv else _mk(OPT, 'None'))
+
+
+def _then(it, st, args, fn, bb, frame, t, depth, site):
+    # b.then(f) = if b { Some(f()) } else { None }
+    if len(args) != 2:
+        return
+    ctx = (fn, bb, frame, t, depth, site)
+    for st2, tv in _fork_bool(it, st, args[0], fn, bb, frame):
+        if tv:
+            for out in _app(it, st2, args[1], [], ctx, lambda r: _mk(OPT, 'Some', r)):
+                yield out
+        else:
+            yield st2, _mk(OPT, 'None')
+
+
+COMBINATORS['core::bool::<impl bool>::then_some'] = _then_some
+COMBINATORS['core::bool::<impl bool>::then'] = _then
+
+
+def _transpose_res(it, st, args, fn, bb, frame, t, depth, site):
+    # Result<Option<T>, E> -> Option<Result<T, E>>
+    for st2, var, pay in it._fork_variant(st, args[0], RES, fn, bb, frame):
+        if var == 'Err':
+            yield st2, _mk(OPT, 'Some', _mk(RES, 'Err', pay))
+        else:
+            for st3, v2, p2 in it._fork_variant(st2, pay, OPT, fn, bb, frame):
+                if v2 == 'None':
+                    yield st3, _mk(OPT, 'None')
+                else:
+                    yield st3, _mk(OPT, 'Some', _mk(RES, 'Ok', p2))
+
+
+COMBINATORS['core::result::Result::transpose'] = _transpose_res
+
+def _extend_option(it, st, args, fn, bb, frame, t, depth, site):
+    # vec.extend(opt) where opt is an Option whose variant is known on this path: `if let Some(x) = opt { vec.push(x) }`
+    if len(args) != 2:
+        return
+    o = strip(args[1])
+    if not (o[0] == 'agg' and o[1] == 'adt' and o[2] == OPT):
+        return
+    if o[3] == 'Some':
+        st.effects.append(Effect('call', (None, 'std::vec::Vec::push', (args[0], o[4][0][1]), site), fn, bb, frame, t, len(st.decisions)))
+    yield st, UNIT
+
+
+COMBINATORS['<std::vec::Vec<T, A> as core::iter::Extend<T>>::extend'] = _extend_option
+
+def _iter_consumer(kind):
+    """`iter.for_each(f)` / `iter.try_for_each(f)` executed as the loop they are documented to be -
+    `for x in iter { f(x) }` / `for x in iter { f(x)?; } Ok(())` - unrolled like any other loop (same bound, same decisions on `next`)"""
+    def h(it, st, args, fn, bb, frame, t, depth, site):
+        if len(args) != 2:
+            return
+        f = strip(args[1])
+        if not (f[0] == 'agg' and f[1] == 'closure') and not (f[0] == 'c' and isinstance(f[1], tuple) and f[1] and f[1][0] == 'fn'):
+            return
+        ctx = (fn, bb, frame, t, depth, site)
+        bound = max(1, it.loop_bound - 1)
+
+        recv = args[0]
+        if recv[0] == 'ref' and len(recv) == 3:
+            # (`try_for_each` takes `&mut self`: carry what the reference points at, as call values do)
+            try:
+                recv = ('ref', recv[1], recv[2], it._read_lv(st, recv[1]))
+            except Exception:
+                recv = args[0]
+
+        def step(st_, k):
+            nxt = ('call', 'core::iter::Iterator::next', (recv,), (site[0], site[1], 'iter%d' % k))
+            for st2, var, pay in it._fork_variant(st_, nxt, OPT, fn, bb, frame):
+                if var == 'None':
+                    yield st2, (UNIT if kind == 'for_each' else _mk(RES, 'Ok', UNIT))
+                elif k < bound:
+                    for st3, r in _app(it, st2, args[1], [pay], ctx):
+                        if r is None:
+                            yield st3, None
+                        elif kind == 'for_each':
+                            for out in step(st3, k + 1):
+                                yield out
+                        else:
+                            sr = strip(r)
+                            adt = RES if not (sr[0] == 'agg' and sr[2] == OPT) else OPT
+                            for st4, v2, p2 in it._fork_variant(st3, r, adt, fn, bb, frame):
+                                if v2 in ('Ok', 'Some'):
+                                    for out in step(st4, k + 1):
+                                        yield out
+                                else:
+                                    yield st4, r        # (the failure itself, handed on)
+                # (more than `bound` elements: cut, like the paths of an explicit loop beyond the bound)
+        for out in step(st, 0):
+            yield out
+    return h
+
+
+COMBINATORS['core::iter::Iterator::for_each'] = _iter_consumer('for_each')
+COMBINATORS['core::iter::Iterator::try_for_each'] = _iter_consumer('try_for_each')
+
+def _unwrap_or_default(adt):
+    def h(it, st, args, fn, bb, frame, t, depth, site):
+        if not args:
+            return
+        for st2, var, pay in it._fork_variant(st, args[0], adt, fn, bb, frame):
+            if var in ('Some', 'Ok'):
+                yield st2, pay
+            else:
+                yield st2, ('call', '<T as core::default::Default>::default', (), site)
+    return h
+
+
+COMBINATORS['core::option::Option::unwrap_or_default'] = _unwrap_or_default(OPT)
+COMBINATORS['core::result::Result::unwrap_or_default'] = _unwrap_or_default(RES)
+
 CF = 'core::ops::ControlFlow'
 
 
@@ -1026,6 +1165,24 @@ class Interp:
         if is_twin:
             name = tw_[1]      # (a function whose body moved here from `name`, which now only forwards: see twins())
         args = tuple(self._operand(st, frame, a, fn) for a in t['args'])
+        cdef = callee_def(t)
+        if re.search(r'core::ops::(Fn|FnMut|FnOnce)::call(_mut|_once)?$', name) and args:
+            # calling a function item through the Fn traits (`f(x)` where `f` is a parameter that was given `T::convert`, or
+            # `opt.map(T::convert)` opened up) is a direct call of that function
+            f0 = strip(args[0])
+            if f0[0] == 'ref':
+                try:
+                    f0 = strip(self._read_lv(st, f0[1]))
+                except Exception:
+                    f0 = strip(args[0])
+            if f0[0] == 'c' and isinstance(f0[1], tuple) and f0[1] and f0[1][0] == 'fn' and not re.search(r'::(Some|Ok|Err)$', str(f0[1][1])):
+                from facts import strip_generics
+                cdef = str(f0[1][1])
+                name = strip_generics(cdef)
+                if len(args) > 1 and args[1][0] == 'agg':
+                    args = tuple(x for _, x in args[1][4])
+                else:
+                    args = tuple(args[1:])
         # call values/effects carry a snapshot of what each reference argument points at
         def snapped(a, depth=0):
             if a[0] == 'ref' and len(a) == 3:
@@ -1072,10 +1229,10 @@ class Interp:
         # inlining of local callee bodies
         target_fn = None
         bind = None
-        if callee_def(t) in self.facts.fns:
-            target_fn = self.facts.fns[callee_def(t)]
+        if cdef in self.facts.fns:
+            target_fn = self.facts.fns[cdef]
             bind = list(args)
-        elif re.search(r'core::ops::(Fn|FnMut|FnOnce)::call(_mut|_once)?$', callee_unresolved(t)) and args:
+        elif cdef == callee_def(t) and re.search(r'core::ops::(Fn|FnMut|FnOnce)::call(_mut|_once)?$', callee_unresolved(t)) and args:
             clo = args[0]
             inner = clo
             if inner[0] == 'ref':
@@ -1127,11 +1284,18 @@ class Interp:
             yield st, res
             return
         res = ('call', name, sargs, site)
+        muts = []
         for a in args:
             if a[0] == 'ref' and a[2] and a[1][0][0] == 'local':
-                lv = a[1]
-                old = self._read_lv(st, lv)
-                self._write_lv(st, lv, ('havoc', site, old, name), fn, bb, frame)
+                muts.append(a[1])
+            elif a[0] == 'agg' and a[1] == 'closure':
+                # a closure literal handed to an opaque call (`iter.for_each(|x| v.push(x))`): what it captured mutably may be written by it
+                for _, up in a[4]:
+                    if up[0] == 'ref' and up[2] and up[1][0][0] == 'local':
+                        muts.append(up[1])
+        for lv in muts:
+            old = self._read_lv(st, lv)
+            self._write_lv(st, lv, ('havoc', site, old, name), fn, bb, frame)
         yield st, res
 
 
